@@ -338,11 +338,14 @@ func c24Build(r *simkit.R, w *pvWorld, cx *c24Ctx, shape int, size int, mutate b
 	case c24Blank, c24BlankOwn:
 		m := 0
 		if mutate {
-			m = 1 + r.Intn(9)
+			m = 1 + r.Intn(11)
 		}
 		if shape == c24BlankOwn {
 			owner = pvKeyNode
 		}
+		// (a blank object may already be a split child: split fields and the finished header of
+		// its parent, which the node has to verify like any other finished header)
+		blankChild := m >= 10 || !mutate && r.Bool(12)
 		o := object.New(w.cnrID, pvUser(owner))
 		o.SetAttributes(attrs...)
 		declared := r.Bool(50)
@@ -375,6 +378,34 @@ func c24Build(r *simkit.R, w *pvWorld, cx *c24Ctx, shape int, size int, mutate b
 				o.SetOwner(pvUser(pvKeyOwner2))
 				u.mut, u.open = "header owner differs from the session issuer", true
 			}
+		}
+		if blankChild {
+			root := object.New(w.cnrID, pvUser(owner))
+			root.SetCreationEpoch(w.epoch)
+			root.SetAttributes(attrs...)
+			root.SetPayloadSize(uint64(size) + 4096)
+			root.SetPayloadChecksum(checksum.NewSHA256(sha256.Sum256(r.Bytes(8))))
+			pk := owner
+			if m == 11 {
+				pk = pvKeyStranger
+				u.mut, u.broken = "parent header: signed by another key", true
+			}
+			c24Seal(r, root, pk)
+			if m == 10 {
+				id := root.GetID()
+				id[5] ^= 1
+				root.SetID(id)
+				u.mut, u.broken = "parent header: identifier does not match", true
+			}
+			o.SetAttributes()
+			o.SetParent(root)
+			o.SetParentID(root.GetID())
+			o.SetFirstID(c24RandID(r))
+			o.SetPreviousID(c24RandID(r))
+			if m == 0 {
+				u.mut, u.open = "blank split child with a finished parent header", true
+			}
+			r.Probe("blank object carrying split fields and a finished parent header")
 		}
 		if shape == c24Blank {
 			u.tokens.SessionV1 = c24Token(r, w, issuer, signK, pvKeySession, session.VerbObjectPut, w.epoch+20, false)
@@ -501,6 +532,12 @@ func c24Build(r *simkit.R, w *pvWorld, cx *c24Ctx, shape int, size int, mutate b
 	case 8:
 		signK = pvKeyStranger
 		u.mut, u.broken = "signed by a key that is neither the owner's nor the session's", true
+		if shape == c24Session && w.lastTok != nil && r.Bool(60) {
+			// (with the very token of an upload this node has already authenticated: a cached
+			// verdict about the token says nothing about who signed THIS object)
+			o.SetSessionToken(w.lastTok)
+			r.Probe("stranger-signed object with an already authenticated session token")
+		}
 	case 9:
 		o.SetPayloadHomomorphicHash(checksum.New(checksum.TillichZemor, r.Bytes(64))) //nolint:staticcheck // legacy field on purpose
 		u.mut, u.open = "garbage homomorphic hash", true
@@ -1131,7 +1168,9 @@ func c24Reassembly(r *simkit.R, w *pvWorld, cx *c24Ctx, st []*pvRec, streamed []
 	}
 	if success {
 		rootObj := logical[root]
-		if rootObj != nil && rootObj.Type() == object.TypeRegular && !rootObj.HasParent() {
+		// (stored whole: no parent header, or the parent header the client itself declared for a
+		// blank object that already is a split child)
+		if rootObj != nil && rootObj.Type() == object.TypeRegular && (!rootObj.HasParent() || !rootObj.GetFirstID().IsZero()) {
 			if !bytes.Equal(rootObj.Payload(), streamed) {
 				r.Failf("put-reassembly", surplus(rootObj.Payload(), "the stored object's payload is not what the client streamed")+" ["+where+"]", "%d bytes stored, %d streamed, %d declared in the blank header", len(rootObj.Payload()), len(streamed), declared)
 			}
